@@ -73,6 +73,14 @@ public:
     return rules;
   }
   
+  /// Look up a rule in this scope or the closest enclosing one.
+  Rule* lookupRule(StringRef name) const {
+    auto it = rules.find(name);
+    if (it != rules.end())
+      return it->second;
+    return parent ? parent->lookupRule(name) : nullptr;
+  }
+
   /// Insert a binding into the set.
   void insertBinding(StringRef name, StringRef value) {
     entries[name] = value;
